@@ -75,7 +75,8 @@ def structureOf (act ref : List Col) (checkTypes checkExtra : Flag) (checkOrder 
     (match dtypeOf act c, dtypeOf ref c with
      | some ta, some tr => !typesMatch ta tr level
      | _, _ => false))
-  let extra := (ce.filter (fun c => !rn.contains c)).eraseDups
+  let unexpected := ct.filter (fun c => an.contains c && !rn.contains c)
+  let extra := (ce.filter (fun c => !rn.contains c) ++ unexpected).eraseDups
   let wrongOrdering := match checkOrder with
     | none => false
     | some f =>
@@ -96,7 +97,11 @@ def checkDataframe (act ref : List Col) (nact nref : Nat) (checkData checkTypes 
   else if nact != nref then false
   else
     let cd := resolve checkData (ref.map (·.name))
-    if cd.isEmpty then true
+    let an := act.map (·.name)
+    let rn := ref.map (·.name)
+    let absent := cd.filter (fun c => !st.missing.contains c && (!an.contains c || !rn.contains c))
+    if !absent.isEmpty then false
+    else if cd.isEmpty then true
     else valuesEqual (cd.filter (fun c => !st.missing.contains c))
 
 end TddaVerif.CheckPandas
